@@ -68,8 +68,10 @@ def main(run):
             run.violation(key, f'{where} {name}!: result of {cname} is not matched')
             continue
         tg = dict((v, bb) for v, bb in sw['targets'])
-        bb_ok, bb_err = tg.get(0), tg.get(1)
-        if bb_ok is None or bb_err is None:
+        # `match` lists both arms; `let Ok(x) = .. else { .. }` / `if let` list one and send the other to `otherwise`
+        bb_ok = tg.get(0, sw['otherwise'] if 1 in tg else None)
+        bb_err = tg.get(1, sw['otherwise'] if 0 in tg else None)
+        if bb_ok is None or bb_err is None or bb_ok == bb_err:
             run.violation(key, f'{where} {name}!: Ok/Err arms not found')
             continue
         # produce: idents pushed under the Ok arm
@@ -77,22 +79,36 @@ def main(run):
         value_ok = False
         bad_value = None
         ctor_term = T.local(ct['dest']['local'])
-        for bi, t in PM.calls(b):
-            c = mir.callee(t) or ''
-            if c == 'quote::__private::push_ident' and len(t['args']) == 2:
-                v = T.operand(t['args'][1])
-                if v[0] == 'bytes':
-                    idents.append((bi, v[1].decode()))
-            if c.endswith('quote_into_iter') or c.endswith('ToTokens>::to_tokens') or c == 'quote::ToTokens::to_tokens':
-                v = T.operand(t['args'][0])
-                # the interpolated value must BE the text view of the validated buffer (references are transparent in
-                # terms): any function in between (escaping, trimming, re-encoding …) changes the produced text
-                if c.endswith('to_tokens') and v[0] == 'agg' and v[1][0] == 'adt' and 'RepInterp' in v[1][1] and v[2]:
-                    continue    # per-element interpolation of the byte iterator (checked through quote_into_iter)
-                if v[0] == 'call' and any(v[1].endswith(sfx) for sfx in TEXT_VIEW) and v[1].startswith(f'iref_core::{buf}::') and v[2] and v[2][0] == ('field', ctor_term, 0):
-                    value_ok = True
-                else:
-                    bad_value = str(v)[:140]
+
+        def is_text_view(v):
+            return v[0] == 'call' and any(v[1].endswith(sfx) for sfx in TEXT_VIEW) and v[1].startswith(f'iref_core::{buf}::') and v[2] and v[2][0] == ('field', ctor_term, 0)
+
+        def scan(body, TT, at_block, argmap):
+            """token construction in `body`; argmap: for a helper of the macro crate, the caller's terms of its parameters"""
+            nonlocal value_ok, bad_value
+            for bi, t in PM.calls(body):
+                c = mir.callee(t) or ''
+                if c == 'quote::__private::push_ident' and len(t['args']) == 2:
+                    v = TT.operand(t['args'][1])
+                    if v[0] == 'bytes':
+                        idents.append((at_block if at_block is not None else bi, v[1].decode()))
+                elif c.endswith('quote_into_iter') or c.endswith('ToTokens>::to_tokens') or c == 'quote::ToTokens::to_tokens':
+                    v = TT.operand(t['args'][0])
+                    # the interpolated value must BE the text view of the validated buffer (references are transparent in
+                    # terms): any function in between (escaping, trimming, re-encoding …) changes the produced text
+                    if c.endswith('to_tokens') and v[0] == 'agg' and v[1][0] == 'adt' and 'RepInterp' in v[1][1] and v[2]:
+                        continue    # per-element interpolation of the byte iterator (checked through quote_into_iter)
+                    if argmap is not None and v[0] == 'arg' and v[1] in argmap:
+                        v = argmap[v[1]]
+                    if is_text_view(v):
+                        value_ok = True
+                    else:
+                        bad_value = str(v)[:140]
+                elif argmap is None and c in PM.bodies and c not in ('produce_error',) and not c.startswith(('syn::', 'quote::', 'proc_macro')):
+                    # a private helper of the macro crate that builds the expansion: looked through once
+                    hb = PM.bodies[c]
+                    scan(hb, terms.Terms(hb), bi, {i + 1: TT.operand(a) for i, a in enumerate(t['args'])})
+        scan(b, T, None, None)
         names = [i for _, i in idents]
         if names != ['unsafe', 'iref', borrowed, 'new_unchecked']:
             run.violation(key, f'{where} {name}! expands to the path {" :: ".join(names)} — expected `unsafe {{ ::iref::{borrowed}::new_unchecked(..) }}`: the value would be wrapped as another type than the one validated ({buf})')
